@@ -13,6 +13,7 @@ NEUTRALS = []
 
 # changes made by sub-agents that were given only the property text (see /verif/seeded/<id>/): each must stay reported
 SEEDED = [
+    {'name': 'seeded change C17-r6', 'seed': 'C17-r6', 'expect': '|F3-KEYS|'},
     {'name': 'seeded change C17-r5b', 'seed': 'C17-r5b', 'expect': '|INT-acc|'},
     {'name': 'seeded change C17-r5a', 'seed': 'C17-r5a', 'expect': '|OCT-letter|'},
     {'name': 'seeded change C17-r4b', 'seed': 'C17-r4b', 'expect': '|F5e-pairing|'},
